@@ -31,6 +31,15 @@ fn main() {
     );
     vcheck::core::SEED.store(seed, std::sync::atomic::Ordering::Relaxed);
     match args[1].as_str() {
+        "helper-run-text" => {
+            // vcheck helper-run-text ARGS...: the raw text `run ARGS...` prints
+            let mut st = chialisp::classic::clvm::__type_compatibility__::Stream::new(None);
+            let mut a: Vec<String> = vec!["run".into()];
+            a.extend(args[2..].iter().cloned());
+            chialisp::classic::clvm_tools::cmds::launch_tool(&mut st, &a, "run", 2);
+            let val = st.get_value();
+            println!("{}", String::from_utf8_lossy(&val.data()[..st.get_length()]));
+        }
         "comview" => {
             // vcheck comview "<expression>": the expression as the evaluator's com sees it (C16)
             println!("{}", props::c16::com_view(args.get(2).unwrap_or_else(|| usage())).unwrap_or_else(|| "(unchanged)".into()));
